@@ -92,7 +92,12 @@ func (a *Activation) callStatic(fn *ssa.Function, args []Val, bindings []Val, st
 			name := fullName(target)
 			for _, c := range con.Clauses {
 				if c.Kind == "oncall" && strings.HasSuffix(name, c.Name) {
+					ra := a.rootAct()
+					if len(res) > 0 {
+						ra.lets["callresult"] = res[0]
+					}
 					a.ghostAssign(out, c)
+					delete(ra.lets, "callresult")
 				}
 			}
 		}
@@ -155,8 +160,10 @@ func (a *Activation) callStatic0(fn *ssa.Function, args []Val, bindings []Val, s
 	if len(target.Blocks) > 0 && target.Synthetic != "" {
 		return a.inline(target, args, bindings, st, tsubst)
 	}
-	t.errorf("%s: call of %s: no contract, no model, not inlinable (outside the subset)", fullName(a.fn), name)
-	return a.opaqueResult(st, sig, name)
+	// a foreign function without contract or model: anything may happen to the heap, any value may come back
+	t.assumed["unmodelled foreign function treated as arbitrary (terminates, does not panic): "+name] = true
+	fv := Val{K: KFunc, S: t.funcID(target)}
+	return a.opaqueCall(fv, args, sig, st, pos, name)
 }
 
 func pickContract(cons []*FuncContract, cs string) *FuncContract {
@@ -1618,6 +1625,20 @@ func (a *Activation) ghostAssign(st *State, c Clause) {
 	for _, as := range strings.Split(c.Expr, ";") {
 		as = strings.TrimSpace(as)
 		if as == "" {
+			continue
+		}
+		if strings.HasPrefix(as, "assert ") {
+			txt := strings.TrimSpace(as[7:])
+			label := ""
+			if m := labelRe.FindStringSubmatch(txt); m != nil {
+				label = m[1]
+				txt = txt[len(m[0]):]
+			}
+			v := env.evalBool(txt, c.Src)
+			a.arith["assert"]++
+			name := fmt.Sprintf("%s#assert[%s:%d]", fullName(a.rootAct().fn), labelOr(label, a.arith["assert"]), a.arith["assert"])
+			o := a.t.oblige("assert", name, label, st.pc, v, c.Src, txt)
+			o.Fn = fullName(a.rootAct().fn)
 			continue
 		}
 		if strings.HasPrefix(as, "assume ") {
